@@ -5,7 +5,8 @@ import json, os, re, shutil, subprocess, sys, glob
 src = sys.argv[1] if len(sys.argv) > 1 else "/tmp/seed/out"
 suffix = sys.argv[2] if len(sys.argv) > 2 else ""
 skips = {
-    "": {"C14/m1": "manifests only for exponents beyond the package limits (MaxInt32), outside the property's domain",
+    "": {"C04/m2": "obsolete: it skipped SetString's final rounding at Precision 0, which let exponents below MinExponent through only because setExponent checked each term separately; after the fix 'the exponent limits apply to the sum of the exponent terms' the parsing step's own range check is complete and the change is behaviour-preserving (kept as the benign variant benign_agent5_C04_m2; it was detected by C01.R3 while it broke the property)",
+         "C14/m1": "manifests only for exponents beyond the package limits (MaxInt32), outside the property's domain",
          "C05/m2": "obsolete: it mutated Cbrt's exactness test (operand copy z0), which the fix 'Cbrt finds exact roots in every rounding mode' replaced; it was detected by C05.R1 while it applied",
          "C11/m2": "obsolete: it mutated Cbrt's exactness test (operand copy z0), which the fix 'Cbrt finds exact roots in every rounding mode' replaced; it was detected by C05.R1/C11.R2 while it applied"},
     "-r2": {
@@ -13,7 +14,9 @@ skips = {
         "C04/m1": "manifests only for a target exponent of MaxInt32, outside the package limits (out of the property's domain)",
         "C17/m1": "manifests only for Exponent == MinInt32, outside the package limits (out of the property's domain)"},
     "-r3": {},
-    "-r4": {"C20/m2": "not confirmed on the tree as repaired in between: with the patch one stable baseline test no longer completes (it was detected by C04.R6 when tried)"},
+    "-r4": {"C05/m2": "obsolete: it moved QuoInteger's sign computation after the destination writes, which changed the result only through the sign stamped on the DivisionImpossible NaN (d.Set(decimalNaN) had cleared an aliased x.Negative); after the fix 'QuoInteger's DivisionImpossible result is NaN, not -NaN' that path returns before the sign is read and the change is behaviour-preserving (kept as the benign variant benign_agent5_C05_m2_r4; it was detected by C05.R1 while it broke the property)",
+            "C11/m2": "obsolete: it mutated the exactness test of the old Cbrt tail; ported to the rewritten Cbrt (fix 'Cbrt is correctly rounded in every rounding mode') the same slip fails 9 tests of the pinned suite, so it is no longer a surviving mutant (it was detected by C11.R2 while it applied)",
+            "C20/m2": "not confirmed on the tree as repaired in between: with the patch one stable baseline test no longer completes (it was detected by C04.R6 when tried)"},
 }
 skip = skips.get(suffix, {})
 rows = []
